@@ -563,6 +563,12 @@ func MakeForeign(r *rng.R, opts ForeignOpts) *Foreign {
 		ovr("word/footnotes.xml", "application/vnd.openxmlformats-officedocument.wordprocessingml.footnotes+xml")
 		w.rel("footnotes", "footnotes.xml", false)
 	}
+	if !opts.Simple && r.Chance(1, 4) {
+		w.feature("endnotes")
+		f.put("word/endnotes.xml", hdr+`<w:endnotes xmlns:w="`+nsW+`"><w:endnote w:type="separator" w:id="0"><w:p/></w:endnote><w:endnote w:id="3"><w:p><w:r><w:t>foreign endnote</w:t></w:r></w:p></w:endnote></w:endnotes>`)
+		ovr("word/endnotes.xml", "application/vnd.openxmlformats-officedocument.wordprocessingml.endnotes+xml")
+		w.rel("endnotes", "endnotes.xml", false)
+	}
 	if r.Chance(1, 3) {
 		w.feature("comments")
 		f.put("word/comments.xml", hdr+`<w:comments xmlns:w="`+nsW+`"><w:comment w:id="0" w:author="A"><w:p><w:r><w:t>c</w:t></w:r></w:p></w:comment></w:comments>`)
@@ -746,6 +752,11 @@ func MakeForeign(r *rng.R, opts ForeignOpts) *Foreign {
 				w.feature("picture")
 				id := mediaIDs[r.Intn(len(mediaIDs))]
 				body.WriteString("<" + w.el("p") + "><" + w.el("r") + "><" + w.el("drawing") + `><wp:inline><wp:extent cx="95250" cy="95250"/><wp:docPr id="3" name="p"/><a:graphic><a:graphicData uri="http://schemas.openxmlformats.org/drawingml/2006/picture"><pic:pic><pic:nvPicPr><pic:cNvPr id="0" name="p"/><pic:cNvPicPr/></pic:nvPicPr><pic:blipFill><a:blip r:embed="` + id + `"/><a:stretch><a:fillRect/></a:stretch></pic:blipFill><pic:spPr><a:xfrm><a:off x="0" y="0"/><a:ext cx="95250" cy="95250"/></a:xfrm><a:prstGeom prst="rect"><a:avLst/></a:prstGeom></pic:spPr></pic:pic></a:graphicData></a:graphic></wp:inline></` + w.el("drawing") + "></" + w.el("r") + "></" + w.el("p") + ">")
+			} else if !opts.Simple && r.Bool() {
+				// a picture that is linked, not embedded: the blip carries r:link, the relationship is external
+				w.feature("linked-picture")
+				id := w.rel("image", "file:///C:/pictures/logo%20"+fmt.Sprint(r.Intn(9))+".png", true)
+				body.WriteString("<" + w.el("p") + "><" + w.el("r") + "><" + w.el("drawing") + `><wp:inline><wp:extent cx="95250" cy="95250"/><wp:docPr id="4" name="lp"/><a:graphic><a:graphicData uri="http://schemas.openxmlformats.org/drawingml/2006/picture"><pic:pic><pic:nvPicPr><pic:cNvPr id="0" name="lp"/><pic:cNvPicPr/></pic:nvPicPr><pic:blipFill><a:blip r:link="` + id + `"/><a:stretch><a:fillRect/></a:stretch></pic:blipFill><pic:spPr><a:xfrm><a:off x="0" y="0"/><a:ext cx="95250" cy="95250"/></a:xfrm><a:prstGeom prst="rect"><a:avLst/></a:prstGeom></pic:spPr></pic:pic></a:graphicData></a:graphic></wp:inline></` + w.el("drawing") + "></" + w.el("r") + "></" + w.el("p") + ">")
 			} else {
 				body.WriteString(w.paragraph(0))
 			}
@@ -799,6 +810,16 @@ func MakeForeign(r *rng.R, opts ForeignOpts) *Foreign {
 	docRelsXML := `<Relationships xmlns="` + relNS + `">` + strings.Join(w.docRels, "") + `</Relationships>`
 	pkgRelsXML := `<Relationships xmlns="` + relNS + `">` + strings.Join(pkgRels, "") + `</Relationships>`
 	ctXML := `<Types xmlns="http://schemas.openxmlformats.org/package/2006/content-types">` + strings.Join(ct, "") + `</Types>`
+	if !opts.Simple && r.Chance(1, 6) {
+		// no Default for the extension xml: every XML part has an Override of its own
+		w.feature("no-default-for-xml")
+		ctXML = strings.Replace(ctXML, `<Default Extension="xml" ContentType="application/xml"/>`, "", 1)
+		for _, n := range f.Order {
+			if strings.HasSuffix(n, ".xml") && !strings.Contains(ctXML, `PartName="/`+n+`"`) {
+				ctXML = strings.Replace(ctXML, "</", `<Override PartName="/`+n+`" ContentType="application/xml"/></`, 1)
+			}
+		}
+	}
 	if !opts.Simple && r.Chance(1, 8) {
 		w.feature("prefixed-package-vocabulary")
 		switch r.Intn(3) {
@@ -808,6 +829,49 @@ func MakeForeign(r *rng.R, opts ForeignOpts) *Foreign {
 			pkgRelsXML = prefixed(pkgRelsXML, "Relationships", relNS, "pr", "Relationship")
 		default:
 			ctXML = prefixed(ctXML, "Types", "http://schemas.openxmlformats.org/package/2006/content-types", "ct", "Default", "Override")
+		}
+	}
+	// the parts beside the main part in other legal spellings: a byte order mark in front, the vocabulary under another
+	// prefix, white space inside the root's end tag, a comment or white space behind the root element, no XML declaration
+	if !opts.Simple {
+		for _, name := range []string{"word/numbering.xml", "word/footnotes.xml", "word/endnotes.xml", "word/styles.xml", "word/settings.xml"} {
+			b, ok := f.Parts[name]
+			if !ok || !r.Chance(1, 3) {
+				continue
+			}
+			x := string(b)
+			short := strings.TrimSuffix(strings.TrimPrefix(name, "word/"), ".xml")
+			for n := r.Range(1, 2); n > 0; n-- {
+				switch r.Intn(6) {
+				case 0:
+					if !strings.HasPrefix(x, "\xef\xbb\xbf") {
+						x = "\xef\xbb\xbf" + x
+						w.feature("byte-order-mark:" + short)
+					}
+				case 1:
+					if strings.Contains(x, `xmlns:w="`) {
+						x = strings.NewReplacer("<w:", "<n0:", "</w:", "</n0:", " w:", " n0:", "xmlns:w=", "xmlns:n0=").Replace(x)
+						w.feature("part-under-prefix-n0:" + short)
+					}
+				case 2:
+					if i := strings.LastIndex(x, ">"); i > 0 && strings.HasSuffix(x, "s>") && x[i-1] != '/' {
+						x = x[:i] + []string{" ", "\n", "\t "}[r.Intn(3)] + ">"
+						w.feature("white-space-in-root-end-tag:" + short)
+					}
+				case 3:
+					x += []string{"\n<!-- written by </exporter> 2.1 -->", "<!-- </w:" + short + "> -->\n", "\n<!-- a/b -->"}[r.Intn(3)]
+					w.feature("comment-behind-root:" + short)
+				case 4:
+					x += []string{"\n", "\r\n\r\n", "  \n\t"}[r.Intn(3)]
+					w.feature("white-space-behind-root:" + short)
+				case 5:
+					if strings.HasPrefix(x, hdr) {
+						x = strings.TrimPrefix(x, hdr)
+						w.feature("no-xml-declaration:" + short)
+					}
+				}
+			}
+			f.Parts[name] = []byte(x)
 		}
 	}
 	f.put("word/_rels/document.xml.rels", hdr+docRelsXML)
